@@ -38,10 +38,32 @@ use verif_harness::*;
 // ------------------------------------------------------------------------------------------------
 // the unit of work under test
 
-#[metrics(subfield)]
+/// the slot value: a number whose `close()` panics when `bomb` is armed (the documented "the guard panics, so its
+/// fields are dropped from your entry" case); the panic carries the harness's `Contained` payload
+#[derive(Default)]
+struct Fused {
+    v: u64,
+    bomb: bool,
+}
+
+impl metrique::CloseValue for Fused {
+    type Closed = u64;
+    fn close(self) -> u64 {
+        if self.bomb {
+            std::panic::panic_any(Contained)
+        }
+        self.v
+    }
+}
+
+#[metrics(subfield_owned)]
 #[derive(Default)]
 struct Child {
-    val: u64,
+    val: Fused,
+}
+
+fn child(v: u64) -> Child {
+    Child { val: Fused { v, bomb: false } }
 }
 
 #[metrics]
@@ -162,6 +184,15 @@ enum Op {
     Gm(usize, u64),
     Gd(usize),
     Gc(usize),
+    /// drop slot guard `i` while its value's `close()` panics (contained): the sender goes away without sending
+    Gdp(usize),
+    /// replace slot field `i` by a fresh `Slot::new(v)` / `LazySlot::default()`; its guard, if alive, becomes the newest orphan
+    Rep(usize, u64),
+    /// `delay_flush(free flush guard)` on / mutate through / drop / drop-with-panicking-close the newest orphan guard
+    Odelay,
+    Ogm(u64),
+    Ogd,
+    Ogdp,
 }
 
 impl Op {
@@ -188,6 +219,12 @@ impl Op {
             Op::Gm(i, v) => format!("gm:{i}:{v}"),
             Op::Gd(i) => format!("gd:{i}"),
             Op::Gc(i) => format!("gc:{i}"),
+            Op::Gdp(i) => format!("gdp:{i}"),
+            Op::Rep(i, v) => format!("rep:{i}:{v}"),
+            Op::Odelay => "odelay".into(),
+            Op::Ogm(v) => format!("ogm:{v}"),
+            Op::Ogd => "ogd".into(),
+            Op::Ogdp => "ogdp".into(),
         }
     }
     fn dec(s: &str) -> Option<Op> {
@@ -215,6 +252,12 @@ impl Op {
             ("gm", 3) => Op::Gm(n(1)? as usize, n(2)?),
             ("gd", 2) => Op::Gd(n(1)? as usize),
             ("gc", 2) => Op::Gc(n(1)? as usize),
+            ("gdp", 2) => Op::Gdp(n(1)? as usize),
+            ("rep", 3) => Op::Rep(n(1)? as usize, n(2)?),
+            ("odelay", 1) => Op::Odelay,
+            ("ogm", 2) => Op::Ogm(n(1)?),
+            ("ogd", 1) => Op::Ogd,
+            ("ogdp", 1) => Op::Ogdp,
             _ => return None,
         })
     }
@@ -236,6 +279,8 @@ struct Shadow {
     cl_made: usize,
     /// some operation has been executed (constructors are only meaningful before)
     started: bool,
+    /// orphan guards alive
+    orphans: usize,
 }
 
 impl Shadow {
@@ -257,7 +302,10 @@ impl Shadow {
             Op::Delay(i) => i < NSLOTS && self.guards[i] && self.fgs > 0,
             Op::Wb(i) => own && i < 2,
             Op::Wp | Op::Wc => self.fut,
-            Op::Gm(i, _) | Op::Gd(i) | Op::Gc(i) => i < NSLOTS && self.guards[i],
+            Op::Gm(i, _) | Op::Gd(i) | Op::Gc(i) | Op::Gdp(i) => i < NSLOTS && self.guards[i],
+            Op::Rep(i, _) => own && i < NSLOTS,
+            Op::Odelay => self.orphans > 0 && self.fgs > 0,
+            Op::Ogm(_) | Op::Ogd | Op::Ogdp => self.orphans > 0,
         }
     }
     /// `open_ok`: whether an `open` returned a guard, `ready`: whether a poll returned `Ready`
@@ -302,8 +350,16 @@ impl Shadow {
             Op::Delay(_) => self.fgs -= 1,
             Op::Wb(_) | Op::Wp => self.fut = !ready,
             Op::Wc => self.fut = false,
-            Op::Gd(i) => self.guards[i] = false,
-            Op::Mut(_) | Op::Hit(_) | Op::Gm(..) | Op::Gc(_) => {}
+            Op::Gd(i) | Op::Gdp(i) => self.guards[i] = false,
+            Op::Rep(i, _) => {
+                if self.guards[i] {
+                    self.guards[i] = false;
+                    self.orphans += 1
+                }
+            }
+            Op::Odelay => self.fgs -= 1,
+            Op::Ogd | Op::Ogdp => self.orphans -= 1,
+            Op::Mut(_) | Op::Hit(_) | Op::Gm(..) | Op::Gc(_) | Op::Ogm(_) => {}
         }
     }
 }
@@ -322,11 +378,26 @@ struct Oracle {
     gval: [u64; NSLOTS],
     gwait: [bool; NSLOTS],
     gdropped: [bool; NSLOTS],
+    /// the guard's drop panicked in `close()`: it went away without handing a value back
+    gfailed: [bool; NSLOTS],
+    /// wait flags of the orphan guards alive (guards whose slot field was replaced), oldest first
+    orphans: Vec<bool>,
     init: [u64; 2],
     appended: Option<Rec>,
 }
 
 impl Oracle {
+    /// answer of a `wait_for_data` poll on slot `i`
+    fn wait_answer(&self, i: usize) -> String {
+        if self.gdropped[i] {
+            format!("R{}", self.gval[i])
+        } else if self.gfailed[i] {
+            "Rn".into()
+        } else {
+            "P".into()
+        }
+    }
+
     fn new(init: [u64; 2]) -> Oracle {
         Oracle {
             refs: 1,
@@ -338,6 +409,8 @@ impl Oracle {
             gval: [0; NSLOTS],
             gwait: [false; NSLOTS],
             gdropped: [false; NSLOTS],
+            gfailed: [false; NSLOTS],
+            orphans: vec![],
             init,
             appended: None,
         }
@@ -382,7 +455,7 @@ impl Oracle {
                 }
                 self.gwait[i] = true;
             }
-            Op::Wb(i) => res = if self.gdropped[i] { format!("R{}", self.gval[i]) } else { "P".into() },
+            Op::Wb(i) => res = self.wait_answer(i),
             Op::Wp => res = "?".into(), // filled by the caller (needs the slot the future is on)
             Op::Wc => {}
             Op::Gm(i, v) => self.gval[i] = v,
@@ -393,6 +466,43 @@ impl Oracle {
                 }
             }
             Op::Gc(_) => res = if self.appended.is_some() { "t".into() } else { "f".into() },
+            // the guard is gone — a drop is a drop: its flush guard is released — but no value comes back; the rest of
+            // the entry (siblings included) is unaffected
+            Op::Gdp(i) => {
+                self.gfailed[i] = true;
+                if self.gwait[i] {
+                    self.fg_total -= 1
+                }
+            }
+            // the field is a fresh slot again; whatever the old slot had received is gone with it; a guard that is
+            // still alive lives on as an orphan and keeps the flush guard it holds
+            Op::Rep(i, v) => {
+                if self.opened[i] && !self.gdropped[i] && !self.gfailed[i] {
+                    self.orphans.push(self.gwait[i]);
+                }
+                self.opened[i] = false;
+                self.gdropped[i] = false;
+                self.gfailed[i] = false;
+                self.gwait[i] = false;
+                if i < 2 {
+                    self.init[i] = v
+                }
+            }
+            // `delay_flush` on an orphan stores the flush guard like on any slot guard: it delays the append until the
+            // orphan is dropped
+            Op::Odelay => {
+                let w = self.orphans.last_mut().unwrap();
+                if *w {
+                    self.fg_total -= 1
+                }
+                *w = true;
+            }
+            Op::Ogm(_) => {}
+            Op::Ogd | Op::Ogdp => {
+                if self.orphans.pop().unwrap() {
+                    self.fg_total -= 1
+                }
+            }
         }
         // C06: appended exactly when the owner and all handles are gone and (all flush guards are gone or a
         // force-flush guard has been dropped); C13: a slot is present iff its guard was dropped by then.
@@ -421,6 +531,7 @@ struct World {
     fgs: Vec<FlushGuard>,
     dgs: Vec<Pin<Box<ForceFlushGuard>>>,
     guards: [Option<SlotGuard<Child>>; NSLOTS],
+    orphans: Vec<SlotGuard<Child>>,
     fut: Option<(usize, WaitFut)>,
     /// (environment, which operations run in it, how drops release), see `Op::Env`
     env: (u8, u8, u8),
@@ -452,8 +563,8 @@ fn build_owner(init: [u64; 2], sink: RecSink, ctor: u8) -> Owner {
     let uow = Uow {
         plain: 0,
         hits: Counter::new(0),
-        a: Slot::new(Child { val: init[0] }),
-        b: Slot::new(Child { val: init[1] }),
+        a: Slot::new(child(init[0])),
+        b: Slot::new(child(init[1])),
         c: LazySlot::default(),
         d: LazySlot::default(),
     };
@@ -524,7 +635,7 @@ fn finish_owner(o: Owner, k: u8, v: u64) {
 
 fn new_world_with(init: [u64; 2], sink: RecSink, ctor: u8) -> World {
     let owner = build_owner(init, sink.clone(), ctor);
-    World { sink, owner: Some(owner), handles: vec![], fgs: vec![], dgs: vec![], guards: [None, None, None, None], fut: None, env: (0, 0, 0) }
+    World { sink, owner: Some(owner), handles: vec![], fgs: vec![], dgs: vec![], guards: [None, None, None, None], orphans: vec![], fut: None, env: (0, 0, 0) }
 }
 
 struct WakeFlag(std::sync::atomic::AtomicBool);
@@ -722,6 +833,18 @@ fn release<T: 'static>(env: u8, pm: u8, obj: T) {
     }
 }
 
+/// drops a slot guard whose value's `close()` panics: the panic starts inside `SlotGuard::drop` (no other panic is in
+/// flight), is contained the `pm`-th way (a `catch_unwind` scope when `pm = 0`), in environment `env`
+fn bomb_drop(env: u8, pm: u8, g: SlotGuard<Child>) {
+    BOMB_DROPS.fetch_add(1, Ordering::Relaxed);
+    panic_in(env, pm.max(1), move || {
+        drop(g);
+        panic!("harness: the armed slot value closed without panicking")
+    })
+}
+static BOMB_DROPS: AtomicU64 = AtomicU64::new(0);
+static TRACE_BOMBS: AtomicU64 = AtomicU64::new(0);
+
 /// finisher `k` of the owner; with `pm != 0` the handler panics instead of finishing: the guard is then dropped by
 /// the unwind — inside `Instrumented::instrument`'s closure for the mutating finishers (after the mutation), inside
 /// an `Instrumented` wrapper otherwise
@@ -750,7 +873,7 @@ impl World {
     fn env_for(&self, op: &Op) -> u8 {
         let class = match op {
             Op::Dref | Op::Fin(..) => 0,
-            Op::Gd(_) | Op::Dfg | Op::Ddg => 1,
+            Op::Gd(_) | Op::Gdp(_) | Op::Ogd | Op::Ogdp | Op::Dfg | Op::Ddg => 1,
             Op::Wb(_) | Op::Wp => 2,
             _ => return 0,
         };
@@ -761,7 +884,7 @@ impl World {
     fn panic_for(&self, op: &Op) -> u8 {
         let class = match op {
             Op::Dref | Op::Fin(..) => 0,
-            Op::Gd(_) | Op::Dfg | Op::Ddg => 1,
+            Op::Gd(_) | Op::Gdp(_) | Op::Ogd | Op::Ogdp | Op::Dfg | Op::Ddg => 1,
             _ => return 0,
         };
         if self.env.1 == 3 || self.env.1 == class { self.env.2 } else { 0 }
@@ -810,8 +933,8 @@ impl World {
                 let g = match i {
                     0 => o.a.open(mode),
                     1 => o.b.open(mode),
-                    2 => o.c.open(Child { val: v0 }, mode),
-                    _ => o.d.open(Child { val: v0 }, mode),
+                    2 => o.c.open(child(v0), mode),
+                    _ => o.d.open(child(v0), mode),
                 };
                 open_ok = g.is_some();
                 res = if open_ok { "some".into() } else { "none".into() };
@@ -860,12 +983,43 @@ impl World {
                 }
             }
             Op::Wc => self.fut = None,
-            Op::Gm(i, v) => self.guards[i].as_mut().unwrap().val = v,
+            Op::Gm(i, v) => self.guards[i].as_mut().unwrap().val.v = v,
             Op::Gd(i) => {
                 let g = self.guards[i].take();
                 release(env, pm, g)
             }
             Op::Gc(i) => res = if self.guards[i].as_ref().unwrap().parent_is_closed() { "t".into() } else { "f".into() },
+            Op::Gdp(i) => {
+                let mut g = self.guards[i].take().unwrap();
+                g.val.bomb = true;
+                bomb_drop(env, pm, g)
+            }
+            Op::Rep(i, v) => {
+                let o = self.owner.as_mut().unwrap();
+                match i {
+                    0 => drop(std::mem::replace(&mut o.a, Slot::new(child(v)))),
+                    1 => drop(std::mem::replace(&mut o.b, Slot::new(child(v)))),
+                    2 => drop(std::mem::take(&mut o.c)),
+                    _ => drop(std::mem::take(&mut o.d)),
+                }
+                if let Some(g) = self.guards[i].take() {
+                    self.orphans.push(g)
+                }
+            }
+            Op::Odelay => {
+                let fg = self.fgs.pop().unwrap();
+                self.orphans.last_mut().unwrap().delay_flush(fg)
+            }
+            Op::Ogm(v) => self.orphans.last_mut().unwrap().val.v = v,
+            Op::Ogd => {
+                let g = self.orphans.pop();
+                release(env, pm, g)
+            }
+            Op::Ogdp => {
+                let mut g = self.orphans.pop().unwrap();
+                g.val.bomb = true;
+                bomb_drop(env, pm, g)
+            }
         }
         (res, open_ok, ready)
     }
@@ -926,7 +1080,7 @@ impl Outcome {
     }
 }
 
-fn run_case(c: &Case, slots_checked: bool) -> Outcome {
+fn run_case_here(c: &Case, slots_checked: bool) -> Outcome {
     let mut w = new_world(c.init, ctor_of(&c.ops));
     let mut sh = Shadow::new();
     let mut or = Oracle::new(c.init);
@@ -961,7 +1115,7 @@ fn run_case(c: &Case, slots_checked: bool) -> Outcome {
         // --- oracle
         let mut want = or.step(op);
         if let Op::Wp = *op {
-            want = if or.gdropped[fut_slot] { format!("R{}", or.gval[fut_slot]) } else { "P".into() };
+            want = or.wait_answer(fut_slot);
         }
         if out.fail.is_some() {
             continue;
@@ -996,7 +1150,141 @@ fn run_case(c: &Case, slots_checked: bool) -> Outcome {
         }
     }
     out.recs = w.sink.all();
+    // whatever the history left alive is dropped now; a panic there is a finding too (and must not take the shard down)
+    if let Err(p) = catch(move || drop(w)) {
+        if out.fail.is_none() {
+            out.fail = Some(("keepalive:panic".into(), format!("dropping what the history left alive panicked: {p}")));
+        }
+    }
     out
+}
+
+// ------------------------------------------------------------------------------------------------
+// Histories in which a destructor panics (`gdp`, `ogdp`) run in a child process: in the code as it is such a panic is
+// always the only one in flight, but a defect that makes the entry's own destructor panic while the guard's unwind is
+// releasing the last flush guard is a double panic, i.e. a process abort — which must be a finding, not the end of
+// the engine.  The child (`keepalive --child 1`) reads `<slots_checked>\t<case line>` per line on stdin and answers
+// one JSON line per case; if it dies, the case it was working on is reported as aborted and a new child is started.
+
+static IS_CHILD: std::sync::atomic::AtomicBool = std::sync::atomic::AtomicBool::new(false);
+static CHILD_CASES: AtomicU64 = AtomicU64::new(0);
+static CHILD_ABORTS: AtomicU64 = AtomicU64::new(0);
+
+fn needs_child(c: &Case) -> bool {
+    c.ops.iter().any(|o| matches!(o, Op::Gdp(_) | Op::Ogdp))
+}
+
+fn outcome_to_json(o: &Outcome) -> Json {
+    json!({
+        "ops": o.ops.iter().map(|x| x.enc()).collect::<Vec<_>>(),
+        "toks": o.toks,
+        "recs": o.recs.iter().map(|r| json!([r.plain, r.hits, r.slots.iter().map(|s| s.map(|v| v as i64).unwrap_or(-1)).collect::<Vec<_>>(), r.extra_keys])).collect::<Vec<_>>(),
+        "fail": o.fail.as_ref().map(|f| json!([f.0, f.1])),
+        "appended_at": o.appended_at,
+    })
+}
+
+fn outcome_from_json(j: &Json) -> Option<Outcome> {
+    let ops: Option<Vec<Op>> = j["ops"].as_array()?.iter().map(|x| Op::dec(x.as_str()?)).collect();
+    let toks = j["toks"].as_array()?.iter().map(|x| x.as_str().unwrap_or("").to_string()).collect();
+    let mut recs = vec![];
+    for r in j["recs"].as_array()? {
+        let mut slots = [None; NSLOTS];
+        for (i, v) in r[2].as_array()?.iter().enumerate() {
+            let v = v.as_i64()?;
+            slots[i] = if v < 0 { None } else { Some(v as u64) };
+        }
+        recs.push(Rec { plain: r[0].as_u64()?, hits: r[1].as_u64()?, slots, seq: 0, extra_keys: r[3].as_u64()? as usize });
+    }
+    let fail = j["fail"].as_array().map(|f| (f[0].as_str().unwrap_or("").to_string(), f[1].as_str().unwrap_or("").to_string()));
+    Some(Outcome { ops: ops?, toks, recs, fail, appended_at: j["appended_at"].as_u64().map(|x| x as usize) })
+}
+
+fn child_main() {
+    use std::io::{BufRead, Write};
+    IS_CHILD.store(true, Ordering::SeqCst);
+    let stdin = std::io::stdin();
+    let mut out = std::io::stdout();
+    for line in stdin.lock().lines() {
+        let Ok(line) = line else { break };
+        let Some((sc, case)) = line.split_once('\t') else { continue };
+        let ans = match Case::decode(case) {
+            Some(c) => outcome_to_json(&run_case_here(&c, sc == "1")),
+            None => json!(null),
+        };
+        let _ = writeln!(out, "{ans}");
+        let _ = out.flush();
+    }
+}
+
+struct ChildProc {
+    child: std::process::Child,
+    stdin: std::process::ChildStdin,
+    stdout: std::io::BufReader<std::process::ChildStdout>,
+}
+
+thread_local! {
+    static CHILD: std::cell::RefCell<Option<ChildProc>> = const { std::cell::RefCell::new(None) };
+}
+
+fn spawn_child() -> Option<ChildProc> {
+    let exe = std::env::current_exe().ok()?;
+    let mut child = std::process::Command::new(exe)
+        .args(["--child", "1"])
+        .stdin(std::process::Stdio::piped())
+        .stdout(std::process::Stdio::piped())
+        .stderr(std::process::Stdio::null())
+        .spawn()
+        .ok()?;
+    let stdin = child.stdin.take()?;
+    let stdout = std::io::BufReader::new(child.stdout.take()?);
+    Some(ChildProc { child, stdin, stdout })
+}
+
+fn run_case_in_child(c: &Case, slots_checked: bool) -> Outcome {
+    use std::io::{BufRead, Write};
+    CHILD_CASES.fetch_add(1, Ordering::Relaxed);
+    CHILD.with(|cell| {
+        let mut slot = cell.borrow_mut();
+        if slot.is_none() {
+            *slot = spawn_child();
+        }
+        let Some(cp) = slot.as_mut() else {
+            // no child process available: run here (the code as it is never aborts)
+            return run_case_here(c, slots_checked);
+        };
+        let mut line = String::new();
+        let ok = writeln!(cp.stdin, "{}\t{}", if slots_checked { "1" } else { "0" }, c.encode()).is_ok()
+            && cp.stdin.flush().is_ok()
+            && cp.stdout.read_line(&mut line).map(|n| n > 0).unwrap_or(false);
+        if ok {
+            if let Some(o) = serde_json::from_str::<Json>(&line).ok().and_then(|j| outcome_from_json(&j)) {
+                return o;
+            }
+        }
+        // the child died on this case
+        let status = cp.child.wait().map(|s| format!("{s}")).unwrap_or_default();
+        *slot = None;
+        CHILD_ABORTS.fetch_add(1, Ordering::Relaxed);
+        Outcome {
+            ops: c.ops.clone(),
+            toks: vec!["abort".into()],
+            recs: vec![],
+            fail: Some((
+                "keepalive:abort".into(),
+                format!("the process aborted ({status}) while running this history: a second panic was raised while a contained panic was unwinding (a destructor of the entry or of a guard panicked during the unwind); nothing can have been appended afterwards"),
+            )),
+            appended_at: None,
+        }
+    })
+}
+
+fn run_case(c: &Case, slots_checked: bool) -> Outcome {
+    if needs_child(c) && !IS_CHILD.load(Ordering::SeqCst) {
+        run_case_in_child(c, slots_checked)
+    } else {
+        run_case_here(c, slots_checked)
+    }
 }
 
 // ------------------------------------------------------------------------------------------------
@@ -1032,7 +1320,11 @@ impl GenState {
                 ready = self.gdropped[i]
             }
             Op::Wp => ready = self.gdropped[self.fut_slot],
-            Op::Gd(i) => self.gdropped[i] = true,
+            Op::Gd(i) | Op::Gdp(i) => self.gdropped[i] = true,
+            Op::Rep(i, _) => {
+                self.opened[i] = false;
+                self.gdropped[i] = false
+            }
             Op::Mut(_) => self.mut_done = true,
             Op::Hit(_) => self.hit_done = true,
             Op::Gm(..) => self.gm_done = true,
@@ -1064,6 +1356,20 @@ fn family_c13() -> Family {
             Op::Fg, Op::Dg, Op::Dref, Op::Fin(1, 0), Op::Dfg, Op::Ddg,
             Op::Open(0, true, 0), Op::Open(0, false, 0), Op::Open(2, true, 4), Op::Open(2, false, 4),
             Op::Gm(0, 9), Op::Gd(0), Op::Gd(2), Op::Wb(0), Op::Wp, Op::Wc, Op::Delay(0), Op::Gc(0),
+        ],
+        max_fg: 2,
+        max_dg: 1,
+        max_cl: 0,
+    }
+}
+
+/// guards that fail (`close()` panics) or outlive their slot field, with a sibling slot
+fn family_x() -> Family {
+    Family {
+        alphabet: vec![
+            Op::Fg, Op::Dg, Op::Dref, Op::Dfg, Op::Ddg,
+            Op::Open(0, true, 0), Op::Open(0, false, 0), Op::Open(1, true, 0),
+            Op::Gm(0, 9), Op::Gd(0), Op::Gd(1), Op::Gdp(0), Op::Rep(0, 8), Op::Odelay, Op::Ogd, Op::Wb(0), Op::Wc,
         ],
         max_fg: 2,
         max_dg: 1,
@@ -1137,6 +1443,8 @@ fn random_case_opts(rng: &mut Rng, slots: bool, tail: bool, max_len: u64) -> Cas
         ops.push(c);
     }
     let nslots_used = if slots { rng.range(1, 4) as usize } else { 0 };
+    // a third of the slot histories also panic in a guard's `close()` / replace slot fields under live guards
+    let x_ops = slots && tail && rng.chance(1, 3);
     for _ in 0..len {
         // candidate ops with weights
         let mut cands: Vec<(u64, Op)> = vec![
@@ -1151,6 +1459,10 @@ fn random_case_opts(rng: &mut Rng, slots: bool, tail: bool, max_len: u64) -> Cas
             cands.push((3, Op::Gd(i)));
             cands.push((1, Op::Delay(i)));
             cands.push((1, Op::Gc(i)));
+            if x_ops {
+                cands.push((1, Op::Gdp(i)));
+                cands.push((1, Op::Rep(i, rng.below(50))));
+            }
             if i < 2 {
                 cands.push((2, Op::Wb(i)));
             }
@@ -1158,6 +1470,12 @@ fn random_case_opts(rng: &mut Rng, slots: bool, tail: bool, max_len: u64) -> Cas
         if slots {
             cands.push((4, Op::Wp));
             cands.push((4, Op::Wc));
+        }
+        if slots && x_ops {
+            cands.push((3, Op::Odelay));
+            cands.push((1, Op::Ogm(rng.below(100))));
+            cands.push((3, Op::Ogd));
+            cands.push((1, Op::Ogdp));
         }
         let valid: Vec<(u64, Op)> = cands.into_iter().filter(|(_, o)| g.sh.valid(o)).collect();
         if valid.is_empty() {
@@ -1197,8 +1515,11 @@ fn random_case_opts(rng: &mut Rng, slots: bool, tail: bool, max_len: u64) -> Cas
         }
         for i in 0..NSLOTS {
             if g.sh.guards[i] {
-                tail.push(Op::Gd(i));
+                tail.push(if x_ops && rng.chance(1, 4) { Op::Gdp(i) } else { Op::Gd(i) });
             }
+        }
+        for _ in 0..g.sh.orphans {
+            tail.push(Op::Ogd);
         }
         rng.shuffle(&mut tail);
         ops.extend(tail);
@@ -1253,8 +1574,10 @@ fn process(cases: &[Case], args: &Args, slots_checked: bool) -> ShardOut {
         bumps.push(format!("appended:{}", o.recs.len()));
         if let Some(r) = o.recs.first() {
             bumps.push(format!("slots-present:{}", r.slots.iter().filter(|s| s.is_some()).count()));
-            let last = o.ops[o.appended_at.unwrap()];
-            bumps.push(format!("append-triggered-by:{}", last.enc().split(':').next().unwrap()));
+            // (an operation that panicked after the append leaves no index)
+            if let Some(last) = o.appended_at.and_then(|at| o.ops.get(at)) {
+                bumps.push(format!("append-triggered-by:{}", last.enc().split(':').next().unwrap()));
+            }
         }
         // non-trivial: a guard of some kind existed when the last owning reference was dropped, or a handle was used
         let mut sh = (0usize, 0usize, false, false); // fgs+slot guards alive, dgs, handle seen, nontrivial
@@ -1479,6 +1802,9 @@ fn run_gated(kind: u8) -> TraceOut {
 static GATED_B_RETURNED_WHILE_HELD: AtomicU64 = AtomicU64::new(0);
 
 enum Racer {
+    /// a discard-mode slot guard whose value's `close()` panics (contained); makes no observation: for the history the
+    /// guard simply never hands a value back (the slot must be absent from the entry)
+    Bomb(SlotGuard<Child>),
     Own(Owner, u8, u64),
     Ref(Box<dyn Send>),
     Fg(FlushGuard),
@@ -1581,15 +1907,33 @@ fn run_trace(c: &Case, pseed: u64) -> TraceOut {
     for d in w.dgs.drain(..) {
         racers.push(Racer::Dg(d));
     }
+    // which live guards hold a flush guard (wait mode), read off the setup
+    let mut wait_mode = [false; NSLOTS];
+    for op in &setup {
+        match *op {
+            Op::Open(i, w, _) if !wait_mode[i] => wait_mode[i] = w,
+            Op::Delay(i) => wait_mode[i] = true,
+            _ => {}
+        }
+    }
     for i in 0..NSLOTS {
-        if let Some(g) = w.guards[i].take() {
+        if let Some(mut g) = w.guards[i].take() {
+            if !wait_mode[i] && prng.chance(1, 6) {
+                // discard mode: the guard's unwind releases nothing, so no second panic can meet it whatever the code does
+                g.val.bomb = true;
+                TRACE_BOMBS.fetch_add(1, Ordering::Relaxed);
+                racers.push(Racer::Bomb(g));
+                continue;
+            }
             let m = if prng.chance(1, 2) { Some(prng.below(100)) } else { None };
             racers.push(Racer::Sg(i, g, m));
         }
     }
     let n = racers.len();
     // where each racer's drop runs: half of the traces stay on plain threads, in the others every racer draws
-    let envs: Vec<(u8, u8)> = if prng.chance(1, 2) {
+    let any_bomb = racers.iter().any(|r| matches!(r, Racer::Bomb(_)));
+    // (with a panicking `close()` in the race every drop is a plain drop: only one panic may ever be in flight)
+    let envs: Vec<(u8, u8)> = if any_bomb || prng.chance(1, 2) {
         vec![(0, 0); n]
     } else {
         (0..n).map(|_| (prng.below(N_ENVS as u64) as u8, if prng.chance(1, 2) { prng.below(N_PANICS as u64) as u8 } else { 0 })).collect()
@@ -1607,6 +1951,7 @@ fn run_trace(c: &Case, pseed: u64) -> TraceOut {
                 barrier.wait();
                 jitter();
                 let res = catch(move || match r {
+                    Racer::Bomb(g) => bomb_drop(0, 0, g),
                     Racer::Own(o, k, v) => {
                         if finisher_mutates(k) {
                             log(format!("mut:{v}"));
@@ -1633,7 +1978,7 @@ fn run_trace(c: &Case, pseed: u64) -> TraceOut {
                     Racer::Sg(i, mut g, m) => {
                         if let Some(v) = m {
                             log(format!("gm:{i}:{v}"));
-                            g.val = v;
+                            g.val.v = v;
                             jitter();
                         }
                         log(format!("bG:{i}"));
@@ -1879,6 +2224,10 @@ fn trace_stage(rep: &mut Report, args: &Args, rng: &mut Rng, c13: bool, replay: 
     for (i, h) in PANIC_DROPS.iter().enumerate() {
         rep.bump_by(&format!("drop operations released by: {} (all stages so far)", PANIC_NAMES[i]), h.load(Ordering::Relaxed));
     }
+    rep.bump_by("slot-guard drops whose close() panicked (contained; all stages, this process)", BOMB_DROPS.load(Ordering::Relaxed));
+    rep.bump_by("trace:racers that were slot guards with a panicking close()", TRACE_BOMBS.load(Ordering::Relaxed));
+    rep.bump_by("histories run in the child process (a destructor panics in them)", CHILD_CASES.load(Ordering::Relaxed));
+    rep.bump_by("… of which aborted the child process", CHILD_ABORTS.load(Ordering::Relaxed));
     rep.bump_by("coop budget exhaustions performed (all stages so far)", BUDGET_EXHAUSTIONS.load(Ordering::Relaxed));
     rep.bump_by("wait_for_data polls that yielded on an exhausted budget and were polled again", YIELDS_REPOLLED.load(Ordering::Relaxed));
     rep.bump_by("… of which had woken their waker before the poll returned", YIELDS_WOKEN_AT_ONCE.load(Ordering::Relaxed));
@@ -1950,8 +2299,14 @@ fn random_setup(rng: &mut Rng, slots: bool) -> Case {
 }
 
 fn main() {
-    quiet_panics();
+    // KEEPALIVE_LOUD=1 keeps the default panic hook (debugging the engine itself)
+    if std::env::var_os("KEEPALIVE_LOUD").is_none() {
+        quiet_panics();
+    }
     let args = Args::parse();
+    if args.extra.contains_key("child") {
+        return child_main();
+    }
     let c13 = args.property == "C13";
     let mut rep = Report::new(
         &args,
@@ -2020,6 +2375,14 @@ fn main() {
         enumerate(&fam, depth, &mut |ops| all.push(ops.to_vec()));
         rep.bump_by(&format!("exhaustive histories depth {depth}"), all.len() as u64);
         for ops in all {
+            cases.push(Case { init: [3, 6], ops });
+        }
+        // (1b) the same for failing guards / replaced slot fields (both properties)
+        let depth_x = if args.thorough() { 7 } else { 6 };
+        let mut all_x: Vec<Vec<Op>> = vec![];
+        enumerate(&family_x(), depth_x, &mut |ops| all_x.push(ops.to_vec()));
+        rep.bump_by(&format!("exhaustive histories with failing / orphaned guards depth {depth_x}"), all_x.len() as u64);
+        for ops in all_x {
             cases.push(Case { init: [3, 6], ops });
         }
         rep.exhaustive = false;
